@@ -22,12 +22,12 @@ def _prep():
         shutil.copy(src, dst)
 
 
-def _run(cmd, log, timeout, cwd=HARNESS, env=None):
+def _run(cmd, log, timeout, cwd=HARNESS, env=None, mem_kb=None):
     """Run in its own process group with a memory cap; kill the whole group on timeout."""
     t0 = time.time()
     with open(log, "w") as f:
         p = subprocess.Popen(
-            ["bash", "-c", "ulimit -v %d; exec \"$@\"" % MEM_KB, "_"] + cmd,
+            ["bash", "-c", "ulimit -v %d; exec \"$@\"" % (mem_kb or MEM_KB), "_"] + cmd,
             stdout=f, stderr=subprocess.STDOUT, cwd=cwd, env=env or ENV,
             preexec_fn=os.setsid)
         try:
@@ -156,7 +156,8 @@ def playback(harness, timeout, tag):
     log = os.path.join(BUILD, "kani-pb-%s-%s.log" % (tag, harness.split("::")[-1]))
     cmd = ["cargo", "kani", "-Z", "stubbing", "-Z", "concrete-playback", "--concrete-playback=print",
            "--target-dir", tdir, "--exact", "--harness", harness]
-    rc, to, wall = _run(cmd, log, timeout)
+    # a single harness: the trace that kani-driver post-processes can be large, so the cap is higher than for the -j runs
+    rc, to, wall = _run(cmd, log, timeout, mem_kb=40 * 1024 * 1024)
     text = open(log, errors="replace").read()
     tests = []
     # regular-format check list
